@@ -60,6 +60,8 @@ def gen_op(rng: random.Random, kind: str):
         return ["scc", rng.random() < 0.6]
     if kind == "succ":
         return ["succ", rng.randrange(64)]
+    if kind == "succstub":
+        return ["succstub", rng.randrange(1 << 16)]
     if kind == "pn":
         return ["pn", rng.randrange(64)]
     if kind == "skip":
@@ -161,6 +163,9 @@ def apply_op(sd, op, ref, control_mod=None):
             r = sd.expand_scc(op[1])
         elif kind == "succ":
             r = sorted(sd.node_successors(_node(sd, op[1]), compute=True))
+        elif kind == "succstub":
+            stubs = list(sd.stub_ids())
+            r = sorted(sd.node_successors(stubs[op[1] % len(stubs)], compute=True)) if stubs else None
         elif kind == "pn":
             i = _node(sd, op[1])
             sd.node_percolated_petri_net(i, compute=True)
